@@ -953,6 +953,10 @@ from mlmverif.selfcheck import B, OK  # noqa: E402
 _L = 'chainables/lazy_fns.py'
 _F = 'utils/func_utils.py'
 VARIANTS = [
+    OK('makers-key-through-a-helper-free-local', 'chainables/lazy_fns.py',
+       "    self.data[repr(type_)] = maker", "    self.data[repr(type_)] = maker\n    del maker"),
+    OK('hash-through-a-local-tuple', 'chainables/lazy_fns.py',
+       "    try:\n      return hash((self.value, self.args, self.kwargs))\n    except TypeError:\n      return hash(self.id)", "    try:\n      parts = (self.value, self.args, self.kwargs)\n      return hash(parts)\n    except TypeError:\n      return hash(self.id)"),
     B('makers-keyed-by-the-type-object', 'chainables/lazy_fns.py',
       "    self.data[repr(type_)] = maker", "    self.data[type_] = maker", 'R-C17-15',
       extra=(('chainables/lazy_fns.py', "    return self.data.get(repr(type_), None)", "    return self.data.get(type_, None)"),)),
